@@ -45,6 +45,22 @@ theorem all_blocks_legs (three : Bool) (nd : Node) :
     (fun n _ => ⟨rfl, by simp [block, T.fresh]⟩)
   simpa [contractAllNeighbourBlocksToKet, ketT, block, T.fresh, flatMap_single] using this
 
+/-- `contract_all_neighbour_blocks_to_hamiltonian`: always axis 0 of the running tensor, block axis 1 (the
+operator leg of a three-layer block): every neighbour leg of the operator tensor is bound to the operator leg
+of that neighbour's block, the result has the legs `[opOut, opIn]` followed by the ket leg and the bra leg of
+every block in neighbour order -/
+theorem all_blocks_legs_hamiltonian (nd : Node) :
+    contractAllNeighbourBlocksToHamiltonian (opT nd) nd (cacheAll true) =
+      some ⟨[Leg.opOut, Leg.opIn] ++ nd.nbrs.flatMap (fun n => [Leg.blkKet n, Leg.blkBra n]),
+            nd.nbrs.map (fun n => (Leg.opNb n, Leg.blkOp n))⟩ := by
+  have := allLoop_general 1 Leg.opNb (block true) Leg.blkOp (cacheAll true) nd nd.nbrs [Leg.opOut, Leg.opIn] []
+    (fun n _ => ⟨rfl, by simp [block, blockRest, T.fresh]⟩)
+  simpa [contractAllNeighbourBlocksToHamiltonian, opT, block, blockRest, T.fresh, flatMap_single] using this
+
+example : contractAllNeighbourBlocksToHamiltonian (opT ⟨some 7, [1, 2]⟩) ⟨some 7, [1, 2]⟩ (cacheAll true) =
+    some ⟨[.opOut, .opIn, .blkKet 7, .blkBra 7, .blkKet 1, .blkBra 1, .blkKet 2, .blkBra 2],
+          [(.opNb 7, .blkOp 7), (.opNb 1, .blkOp 1), (.opNb 2, .blkOp 2)]⟩ := by decide
+
 /-- `contract_bra_to_ket_and_blocks_ignore_one_leg`: the final tensordot binds exactly
 `(blkBra n, braNb (f n))` for every `n ≠ next` and `(ketPhys, braPhys)`, and leaves
 `[ketNb next, braNb (f next)]` — for ANY relative order of the ket's and the bra's neighbours. -/
